@@ -83,6 +83,10 @@ class Baton:
 # ----- scenario preparation ---------------------------------------------------------------------------
 def scenario_program(join: str, nup: int) -> dict:
     S, P = PR.S, PR.P
+    if join in ("MUTEX", "CHOICE"):
+        sibs = ["b", "c", "e"][:nup]
+        kw = {"mutex": "m"} if join == "MUTEX" else {"choice": "g"}
+        return P(f"race_{join}_{nup}", [S("a")] + [S(u, ["a"], **kw) for u in sibs])
     ups = ["b", "c", "e"][:nup]
     thr = 2 if join == "N_OF_M" else 0
     return P(f"race_{join}_{nup}", [S("a")] + [S(u, ["a"]) for u in ups] + [S("d", ups, join=join, thr=thr)])
@@ -94,8 +98,10 @@ def prepare(prog: dict, scenario: str, basedir: str) -> tuple[str, dict]:
 
     run = Run(prog, "race-prep", keep=True)
     run.start()
-    hold = (lambda r: r["typ"] == "StartStage" and r["key"][1] == "d") if scenario == "A" else \
-           (lambda r: r["typ"] == "CompleteStage" and r["key"][1] in ("b", "c", "e"))
+    hold = {"A": lambda r: r["typ"] == "StartStage" and r["key"][1] == "d",
+            "B": lambda r: r["typ"] == "CompleteStage" and r["key"][1] in ("b", "c", "e"),
+            "M": lambda r: r["typ"] == "StartStage" and r["key"][1] in ("b", "c", "e"),
+            "X": lambda r: r["typ"] == "StartStage" and r["key"][1] in ("b", "c", "e")}[scenario]
     for _ in range(2000):
         rows = run.rows()
         todo = [r for r in rows if not hold(r) and not r["locked"] and not r["delayed"]]
@@ -122,7 +128,8 @@ def init_st(state: dict, ups: list[str]) -> str:
         tks = [v for k, v in state["tk"].items() if k.startswith(r + ".")]
         return '[status |-> "%s", ver |-> %d, fired |-> %s, cb |-> %s, tver |-> %d]' % (
             s["status"], s["ver"], "TRUE" if s["fired"] else "FALSE", PR.tla_value(set(s["cb"])), tks[0]["ver"])
-    return "(" + " @@ ".join('"%s" :> %s' % (r, row(r)) for r in ups + ["d"]) + ")"
+    refs = ups + (["d"] if "d" in state["st"] else [])
+    return "(" + " @@ ".join('"%s" :> %s' % (r, row(r)) for r in refs) + ")"
 
 
 def race_cfg(workers: list[int], ups: list[str], join: str, thr: int, scenario: str, initst: str) -> str:
@@ -133,6 +140,7 @@ def race_cfg(workers: list[int], ups: list[str], join: str, thr: int, scenario: 
         "Up == %s" % PR.tla_value(set(ups)),
         "Branch == (%s)" % branch,
         'JoinType == "%s"' % join, "Threshold == %d" % thr, 'Scenario == "%s"' % scenario,
+        "SibOrder == " + PR.tla_value(list(ups)),
         "InitSt == " + initst, "===="]) + "\n"
 
 
@@ -166,6 +174,7 @@ def explore(rd: str, cfgmod: str) -> tuple[dict, str, tlc.TLCResult]:
         fh.write(cfgmod)
     cfg = "\n".join(["INIT InitP", "NEXT Next", "INVARIANT ClaimOnce", "INVARIANT PlanOnce",
                      "INVARIANT StartedExactlyOnce", "INVARIANT BranchesRecorded", "INVARIANT NothingLeftLocked",
+                     "INVARIANT MutexExclusive", "INVARIANT ChoiceOneWinner", "INVARIANT SiblingsSettled",
                      "ACTION_CONSTRAINT Edge", "CHECK_DEADLOCK FALSE"]) + "\n"
     r = tlc.run_tlc(rd, "MC_Race", cfg, workers=1, extra=["-coverage", "1"])
     edges: dict[str, list[str]] = {}
@@ -188,10 +197,17 @@ def pcs(s: dict) -> dict:
     return p
 
 
+def _wk(s: dict) -> dict:
+    p = s["wk"]
+    if isinstance(p, list):
+        return {str(i + 1): v for i, v in enumerate(p)}
+    return p
+
+
 def mover(a: dict, b: dict) -> int:
-    pa, pb = pcs(a), pcs(b)
-    for w, pc in pa.items():
-        if pb[w] != pc:
+    pa, pb = _wk(a), _wk(b)
+    for w, rec in pa.items():
+        if pb[w] != rec:
             return int(w)
     raise ValueError("no worker moved")
 
@@ -236,34 +252,34 @@ def sample_paths(edges: dict, init: str, n: int, rng: random.Random) -> list[lis
 
 
 # ----- replay ---------------------------------------------------------------------------------------------
-def project(raw, ups: list[str], msg_of: dict[int, int]) -> dict:
+def project(raw, refs: list[str], msg_of: dict[int, int]) -> dict:
     st = {}
+    sid = {}
     for r in raw.execute("SELECT id, ref_id, status, version, context FROM stage_executions"):
-        if r["ref_id"] in ups + ["d"]:
+        sid[r["id"]] = r["ref_id"]
+        if r["ref_id"] in refs:
             ctx = json.loads(r["context"] or "{}")
             t = raw.execute("SELECT version FROM task_executions WHERE stage_id = ? ORDER BY id", (r["id"],)).fetchone()
             st[r["ref_id"]] = {"status": r["status"], "ver": r["version"], "fired": bool(ctx.get("_join_fired", False)),
                                "cb": sorted(ctx.get("_completed_branches", [])), "tver": t["version"]}
     qids = {r["id"] for r in raw.execute("SELECT id FROM queue_messages")}
-    done = set()
-    for r in raw.execute("SELECT message_id FROM processed_messages"):
-        done.add(int(r["message_id"]))
-    new = [(r["message_type"], json.loads(r["payload"]).get("stage_id", "")) for r in
-           raw.execute("SELECT * FROM queue_messages") if r["id"] not in msg_of.values()]
-    return {"st": st, "inq": sorted(w for w, qid in msg_of.items() if qid in qids),
-            "done": sorted(w for w, qid in msg_of.items() if qid in done),
-            "newStartTaskD": sum(1 for t, s in new if t == "StartTask"),
-            "newStartStageD": sum(1 for t, s in new if t == "StartStage")}
+    done = {int(r["message_id"]) for r in raw.execute("SELECT message_id FROM processed_messages")}
+    new = sorted([r["message_type"], sid.get(json.loads(r["payload"]).get("stage_id"), "")]
+                 for r in raw.execute("SELECT * FROM queue_messages") if r["id"] not in msg_of.values())
+    claims = {r["claim_key"]: sid.get(r["stage_id"], "?") for r in raw.execute("SELECT claim_key, stage_id FROM stage_claims")}
+    return {"st": st, "inq_n": len([w for w, qid in msg_of.items() if qid in qids]),
+            "done_n": len([w for w, qid in msg_of.items() if qid in done]), "new": new, "claims": claims}
 
 
-def model_view(s: dict, scenario: str, base_new: dict) -> dict:
+def model_view(s: dict) -> dict:
     st = {k: {"status": v["status"], "ver": v["ver"], "fired": v["fired"], "cb": sorted(v["cb"]), "tver": v["tver"]}
           for k, v in s["st"].items()}
-    held_typ = "StartStage" if scenario == "A" else "CompleteStage"
-    return {"st": st, "done_n": len([m for m in s["done"] if m[0] == held_typ]),
-            "newStartTaskD": sum(1 for m in s["q"] if m[0] == "StartTask"),
-            "newStartStageD": sum(1 for m in s["q"] if m[0] == "StartStage" and (scenario == "B" or m[2] >= 10)),
-            "inq_n": len([m for m in s["q"] if m[0] == held_typ and (scenario == "B" or m[2] < 10)])}
+    claims = s.get("claims") or {}
+    if isinstance(claims, list):
+        claims = {}
+    return {"st": st, "inq_n": len([m for m in s["q"] if m[2] < 100]),
+            "done_n": len([m for m in s["done"] if m[2] < 100]),
+            "new": sorted([m[0], m[1]] for m in s["q"] if m[2] >= 100), "claims": claims}
 
 
 def replay_path(prog: dict, basedb: str, held: list[dict], workers: list[int], ups: list[str], scenario: str,
@@ -300,7 +316,7 @@ def replay_path(prog: dict, basedb: str, held: list[dict], workers: list[int], u
         for w in workers:
             if scenario == "A":
                 row = held[w - 1]
-            else:
+            else:  # B, M, X: the worker's message is the one about its branch / sibling stage
                 br = ups[(w - 1) % len(ups)]
                 row = next(r for r in held if r["key"][1] == br)
             raw.execute("UPDATE queue_messages SET deliver_at = '2999-01-01T00:00:00+00:00' WHERE id != ?", (row["qid"],))
@@ -322,15 +338,13 @@ def replay_path(prog: dict, basedb: str, held: list[dict], workers: list[int], u
         with baton.cv:
             baton.cv.wait_for(lambda: len(baton.parked) == len(workers), 10)
         states = [json.loads(s) for s in path]
-        base = project(raw, ups, msg_of)
+        refs = list(states[0]["st"].keys())
         for i in range(1, len(states)):
             w = mover(states[i - 1], states[i])
             res = baton.step(w)
-            want = model_view(states[i], scenario, base)
-            got = project(raw, ups, msg_of)
-            ok = (got["st"] == want["st"] and len(got["done"]) == want["done_n"] and len(got["inq"]) == want["inq_n"]
-                  and got["newStartTaskD"] == want["newStartTaskD"]
-                  and got["newStartStageD"] - (0 if scenario == "B" else 0) == want["newStartStageD"])
+            want = model_view(states[i])
+            got = project(raw, refs, msg_of)
+            ok = got == want
             endpc = pcs(states[i])[str(w)]
             if ok and ((endpc == "end") != (res == "finished")):
                 ok = False
@@ -370,24 +384,28 @@ def _job(args):
     return len(paths), bad
 
 
-def run(pid: str, tier: str, seed: int) -> int:
+def component(rep: Reporter, tier: str, seed: int, which: str) -> dict:
+    """which = 'join' (C04: scenarios A, B) or 'siblings' (C11: mutex / deferred choice).  Adds violations to rep."""
     import concurrent.futures as cf
     import multiprocessing as mp
 
-    t0 = time.time()
     quick = tier != "thorough"
     rng = random.Random(seed)
-    rep = Reporter(pid)
     base = core.scratch_dir("racebase")
     configs = []
-    for join in ("AND", "DISCRIMINATOR", "N_OF_M", "MULTI_MERGE"):
-        for scen in ("A", "B"):
+    if which == "join":
+        for join in ("AND", "DISCRIMINATOR", "N_OF_M", "MULTI_MERGE"):
+            for scen in ("A", "B"):
+                configs.append((join, 2, scen, [1, 2]))
+        configs.append(("AND", 3, "A", [1, 2, 3]))
+        configs.append(("N_OF_M", 3, "B", [1, 2, 3]))
+        if not quick:
+            configs.append(("N_OF_M", 3, "A", [1, 2, 3]))
+            configs.append(("DISCRIMINATOR", 3, "B", [1, 2, 3]))
+    else:
+        for join, scen in (("MUTEX", "M"), ("CHOICE", "X")):
             configs.append((join, 2, scen, [1, 2]))
-    configs.append(("AND", 3, "A", [1, 2, 3]))
-    configs.append(("N_OF_M", 3, "B", [1, 2, 3]))
-    if not quick:
-        configs.append(("N_OF_M", 3, "A", [1, 2, 3]))
-        configs.append(("DISCRIMINATOR", 3, "B", [1, 2, 3]))
+            configs.append((join, 3, scen, [1, 2, 3]))
     states = transitions = replayed = 0
     info = []
     samples = []
@@ -407,7 +425,6 @@ def run(pid: str, tier: str, seed: int) -> int:
             states += r.distinct
             transitions += r.generated
             if r.violated:
-                # a C04 formula is false on the model of the code's behaviour: confirm on the real engine below
                 rep.violation(f"{prog['name']} scenario {scen}: TLC reports {r.violated} violated on Race.tla",
                               {"formula": r.violated[0], "state": None, "program": prog, "source": "model"},
                               {"kind": "race-model", "program": prog, "scenario": scen, "violated": r.violated})
@@ -418,9 +435,9 @@ def run(pid: str, tier: str, seed: int) -> int:
                 paths = all_paths(edges, init, 5000, rng, None)
                 exhaustive = True
             else:
-                paths = all_paths(edges, init, 150 if quick else 1500, rng, 2) + sample_paths(edges, init, 60 if quick else 1500, rng)
+                paths = all_paths(edges, init, 120 if quick else 1500, rng, 2) + sample_paths(edges, init, 60 if quick else 1500, rng)
                 exhaustive = False
-            info.append({"join": join, "upstreams": nup, "scenario": scen, "workers": len(workers), "distinct": r.distinct,
+            info.append({"join": join, "stages": nup, "scenario": scen, "workers": len(workers), "distinct": r.distinct,
                          "interleavings": len(paths), "exhaustive": exhaustive,
                          "coverage": {k: v for k, v in r.coverage().items()}})
             if paths and len(samples) < 3:
@@ -441,18 +458,27 @@ def run(pid: str, tier: str, seed: int) -> int:
                                    "schedule": b["schedule"], "mismatch": b})
     finally:
         shutil.rmtree(base, ignore_errors=True)
+    return {"states": states, "transitions": transitions, "replayed": replayed, "configs": info, "samples": samples}
+
+
+def run(pid: str, tier: str, seed: int) -> int:
+    t0 = time.time()
+    rep = Reporter(pid)
+    res = component(rep, tier, seed, "join")
+    info = res["configs"]
     rc = rep.finish()
     write_evidence(pid, tier, seed, "model_checking",
-                   {"states": max(states, 1), "transitions": max(transitions, 1), "traces_validated_against_impl": replayed,
-                    "samples": samples or [{"note": "none"}], "configs": info,
+                   {"states": max(res["states"], 1), "transitions": max(res["transitions"], 1),
+                    "traces_validated_against_impl": res["replayed"],
+                    "samples": res["samples"] or [{"note": "none"}], "configs": info,
                     "exhaustive": all(i["exhaustive"] for i in info) if info else False,
                     "rule": "every interleaving TLC enumerates for 2 workers; <=2-preemption interleavings + seeded sample for 3"},
                    time.time() - t0, violations=len(rep.violations),
                    assumptions=["segment grain: a write transaction and the reads that follow it are one step (SQLite excludes "
                                 "other writers during a write transaction)", "racing messages are polled up front",
                                 "SQLite backend, DELETE journal mode"])
-    print(f"{pid}: {len(info)} race configurations, {states} model states, {replayed} interleavings replayed on the real "
-          f"handlers, {len(rep.violations)} violation(s); {time.time() - t0:.0f}s")
+    print(f"{pid}: {len(info)} race configurations, {res['states']} model states, {res['replayed']} interleavings replayed on "
+          f"the real handlers, {len(rep.violations)} violation(s); {time.time() - t0:.0f}s")
     return rc
 
 
